@@ -40,6 +40,11 @@ def run(ck):
     c04.r1_fields_restored(ck, rule="C05-R3a")
     c04.r2_single_caller(ck, rule="C05-R3b")
     c04.r3b_pop_after_rollback(ck, rule="C05-R3c")
+    # the undo re-inserts the hunk's own lines; that restores the file only because a hunk is placed solely where the file's lines
+    # equal them byte for byte (the comparison of the trial, C02-R4) - all-or-nothing per patch rests on the undo putting back exactly what was there that holds
+    from . import c02 as _c02
+    from .c18 import ck_alias as _alias
+    _c02.r4(_alias(ck, "C05-R3e"))
     c04.r4_direction(ck, rule="C05-R3d")
     r6_every_file_saved(ck)
     r4(ck, par)
